@@ -246,12 +246,12 @@ class Parser(object):
 
         p[0] = [p[1]]
 
-    def p_elements_tuple_pairs(self, p):
+    def p_list_tuple_pairs(self, p):
         """
-        elements : tuple_pairs
+        list : LBRACK tuple_pairs RBRACK
         """
 
-        p[0] = p[1]
+        p[0] = p[2]
 
     def p_element_expression(self, p):
         """
